@@ -149,7 +149,7 @@ func runC14History(r *mon.Run, stream uint64) {
 		m1, m2 := len(pb.Txns), len(pb.V2Txns)
 		randomPoolTxns(pb, t, 1+rng.IntN(3))
 		fv1, fv2 := pb.TakeNew(&m1, &m2)
-		kind := []string{"fresh", "fresh", "partly-known", "all-known", "conflict-at-k", "invalid-at-k"}[rng.IntN(6)]
+		kind := []string{"fresh", "fresh", "partly-known", "all-known", "conflict-at-k", "invalid-at-k", "known-then-conflict"}[rng.IntN(7)]
 		useV2 := len(fv2) > 0 && (len(fv1) == 0 || rng.IntN(2) == 0)
 		cs := base
 		cs.Step, cs.Kind = step, kind
@@ -173,6 +173,41 @@ func runC14History(r *mon.Run, stream uint64) {
 				set2 = pre.v2
 			} else {
 				set1 = pre.v1
+			}
+		case "known-then-conflict":
+			// already pooled transactions first, then (fresh ones and) a transaction
+			// that conflicts with the pool: rejected as a whole, pool untouched
+			fb := tip.L.NewBuilder(rng)
+			var c1 []types.Transaction
+			var c2 []types.V2Transaction
+			for try := 0; try < 8 && len(c1)+len(c2) == 0; try++ {
+				fb = tip.L.NewBuilder(rng)
+				randomPoolTxns(fb, t, 2)
+				for _, x := range fb.Txns {
+					if conflictsV1(x, pre) {
+						c1 = append(c1, x)
+						break
+					}
+				}
+				for _, x := range fb.V2Txns {
+					if conflictsV2(x, pre) && len(c1) == 0 {
+						c2 = append(c2, x)
+						break
+					}
+				}
+			}
+			switch {
+			case len(c2) > 0 && len(pre.v2) > 0 && independentV2(fv2, c2[0]):
+				nk := 1 + rng.IntN(len(pre.v2))
+				set2 = append(append(append([]types.V2Transaction{}, pre.v2[:nk]...), fv2...), c2[0])
+				expectErr = true
+			case len(c1) > 0 && len(pre.v1) > 0:
+				nk := 1 + rng.IntN(len(pre.v1))
+				set1 = append(append(append([]types.Transaction{}, pre.v1[:nk]...), fv1...), c1[0])
+				expectErr = true
+			default:
+				set1, set2 = fv1, fv2
+				cs.Kind = "fresh"
 			}
 		case "conflict-at-k":
 			// a transaction valid against the tip alone that double-spends a pooled one,
@@ -334,6 +369,19 @@ func runC14History(r *mon.Run, stream uint64) {
 			if k == "v2" {
 				if x, ok := cm.V2PoolTransaction(id); ok {
 					scribbleV2(&x)
+				}
+			}
+		}
+		// ... and the broadcast set of a pooled transaction (its pooled parents
+		// come out of the pool's own storage)
+		if pl := cm.V2PoolTransactions(); len(pl) > 0 {
+			last := pl[len(pl)-1]
+			if _, set, err := cm.V2TransactionSet(tip.L.State.Index, last.DeepCopy()); err == nil {
+				for i := range set {
+					scribbleV2(&set[i])
+				}
+				if len(set) > 1 {
+					r.Count("aliasing_probes_txnset_with_parents", 1)
 				}
 			}
 		}
